@@ -132,14 +132,7 @@ class readXmlBody_c:
     pass
 
 
-@contract("xandikos.webdav.apply_modify_prop",
-          params={"el": "opaque:Element", "href": "str", "resource": "obj:xandikos.web.Collection", "properties": "opaque:Registry"},
-          returns="list[opaque:PropStat]", may_raise=["BadRequestError"], effects=[["modify_prop", "resource"]])
-class apply_modify_prop_c:
-    pass
-
-
-@contract("xandikos.webdav.propstat_as_xml", params={"propstat": "list[opaque:PropStat]"}, returns="list[opaque:Element]")
+@contract("xandikos.webdav.propstat_as_xml", params={"propstat": "list[tuple[str,opt[str],opaque:XmlOut]]"}, returns="list[opaque:Element]")
 class propstat_as_xml_c:
     pass
 
@@ -164,7 +157,7 @@ class nonfatal_bad_request_c:
           returns="obj:xandikos.webdav.Response",
           may_raise=["ValueError", "KeyError", "AssertionError", "BadRequestError", "UnsupportedMediaType",
                      "FileExistsError"],
-          locals={"propstat": "list[opaque:PropStat]"}, loop_modifies={0: ["propstat"]})
+          locals={"propstat": "list[tuple[str,opt[str],opaque:XmlOut]]"}, loop_modifies={0: ["propstat"]})
 class Mkcol_handle:
     """C13: the collection is created at the normalised request path (obligation
     #pre:create_collection).  C01: a request that is refused (400/415) creates nothing."""
